@@ -7,7 +7,7 @@ ID = "C06"
 LEVEL = "proof"
 TRUSTED = dc.TRUSTED
 ASSUMPTIONS = ["DATA-reader part; BDAT accounting and the SIZE parameter are tied by the conv/mailargs probes"]
-RULE = ("conv probe: DATA bodies with limits |body|-1..|body|+1, BDAT chunk sequences totalling N-2..N+2 and 3N for N in {5,10}, declared SIZE in {N-1,N,N+1,2^32-1,2^32,0}, SMTP and LMTP; dr probe with a size budget: exhaustive transition table for budget 0, 1 and 3; every stream over "
+RULE = ("conv probe: DATA bodies with limits |body|-1..|body|+1, BDAT chunk sequences totalling N-2..N+2 and 3N for N in {5,10}, second transactions within the limit after a completed / abandoned / exactly-N chunked transfer on the same connection (no 552 may appear), declared SIZE in {N-1,N,N+1,2^32-1,2^32,0}, SMTP and LMTP; dr probe with a size budget: exhaustive transition table for budget 0, 1 and 3; every stream over "
         "{'.',CR,LF,'a'} up to the tier's length x limits {1, |body|-2..|body|+2, far above} x read schedules; random "
         "256-valued streams with random limits. non-trivial = limited reader and stream containing '.', CR or LF")
 THEOREMS = ["C06_bound_data", "C06_oversize_never_complete", "C06_transparent", "data_monitor_accepts_model"]
@@ -48,6 +48,32 @@ def size_convs(tier, rng):
                               **(dict(DATA=g.ddec(rsz=rng.choice([1, 3, 4096]))) if i == 0 else {}))
                     P.markers(c)
                     cases.append(c.case(seg=rng.choice(["one", "line", "rand"]), rng=rng))
+    # connection histories: an earlier chunked transfer (completed / abandoned by RSET / refused) must not count
+    # against the next message; every message here is within the limit, so no 552 may appear at all ("fits")
+    for N in (5, 10):
+        for lm in (0, 1):
+            cfg = dict(maxmsg=N, lmtp=lm)
+            for first in ("done", "rset", "exact"):
+                for second_total in (1, N - 1, N):
+                    for parts in (1, 2):
+                        c = g.Conv(cfg)
+                        P.envelope(c, bool(lm))
+                        if first == "done":
+                            c.add(b"BDAT %d LAST\r\n" % (N - 1) + b"y" * (N - 1), DATA=g.ddec())
+                        elif first == "exact":
+                            c.add(b"BDAT %d\r\n" % (N - 2) + b"y" * (N - 2), DATA=g.ddec())
+                            c.add(b"BDAT 2 LAST\r\n" + b"yy")
+                        else:
+                            c.add(b"BDAT %d\r\n" % (N - 1) + b"y" * (N - 1), DATA=g.ddec(ret="prop"))
+                            c.add(b"RSET\r\n")
+                        c.add(b"MAIL FROM:<s2@x>\r\n", MAIL="ok"); c.add(b"RCPT TO:<r2@x>\r\n", RCPT="ok")
+                        sizes = [second_total // parts] * parts
+                        sizes[-1] += second_total - sum(sizes)
+                        for i, k in enumerate(sizes):
+                            c.add(b"BDAT %d" % k + (b" LAST" if i == parts - 1 else b"") + b"\r\n" + b"z" * k,
+                                  **(dict(DATA=g.ddec(rsz=rng.choice([1, 3, 4096]))) if i == 0 else {}))
+                        P.markers(c)
+                        cases.append(c.case(seg=rng.choice(["one", "line", "rand"]), rng=rng) + "\tTAG=fits")
     return cases
 
 
